@@ -45,6 +45,10 @@ from loky import ProcessPoolExecutor, get_reusable_executor  # noqa: E402
 from loky.backend import get_context  # noqa: E402
 import loky.process_executor as pe  # noqa: E402
 
+if CONFIG.get("sigchld_ignore"):
+    # a host application that ignores SIGCHLD: the kernel reaps children itself, waitpid gives ECHILD
+    signal.signal(signal.SIGCHLD, signal.SIG_IGN)
+
 if CONFIG.get("main_level_tracked"):
     # a tracked operation at module level of the main script: re-executed by loky_init_main workers
     LV_GLOBAL_LOCK = get_context("loky").Lock()
@@ -274,9 +278,16 @@ def resubmit_cb(name, exname, fut):
     run_op({"op": "submit", "ex": exname, "task": {"k": "ok", "x": -1}, "id": "cb.%s.%d" % (name, CB_COUNT[0]), "from_callback": True}, Ctx(97))
 
 
-def register_future(name, fut, raising_cb=False, resubmit=None):
+def register_future(name, fut, raising_cb=False, resubmit=None, slow_cb=None):
     with FUT_LOCK:
         FUTS[name] = fut
+    if slow_cb:
+
+        def slow(f, d=slow_cb):
+            log("slow_cb", fut=name, d=d)
+            time.sleep(d)
+
+        fut.add_done_callback(slow)
     if raising_cb:
 
         def bad_cb(f):
@@ -372,7 +383,7 @@ def op_submit(op, oid, ctx):
     log("submit_call", oid=oid, ex=op["ex"], exid=id(ex), fut=fname, tid=tid, spec=spec, exp=exp,
         pickler=_pickler_name())
     fut = ex.submit(lv_tasks.run, spec, tid, *lv_tasks.make_args(spec))
-    register_future(fname, fut, raising_cb=bool(op.get("raising_cb")), resubmit=(op["ex"] if op.get("resubmit_on_break") else None))
+    register_future(fname, fut, raising_cb=bool(op.get("raising_cb")), resubmit=(op["ex"] if op.get("resubmit_on_break") else None), slow_cb=op.get("slow_cb"))
     remember(op["ex"], ex)
     return {"fut": fname}
 
@@ -392,8 +403,25 @@ def op_map(op, oid, ctx):
     kw = {}
     if "chunksize" in op:
         kw["chunksize"] = op["chunksize"]
-    ref = list(map(functools.partial(lv_tasks.mapfn_ref, oid), *iters))
-    got = list(ex.map(functools.partial(lv_tasks.mapfn, oid), *iters, **kw))
+
+    def iterables():
+        if op.get("shared_iter"):
+            it = iter(iters[0])  # the same iterator passed several times (grouper idiom)
+            return [it] * op["shared_iter"]
+        return iters
+
+    if op.get("stop_mod"):
+        fn, rfn = functools.partial(lv_tasks.mapfn_stop, oid, op["stop_mod"]), functools.partial(lv_tasks.mapfn_stop_ref, oid, op["stop_mod"])
+    else:
+        fn, rfn = functools.partial(lv_tasks.mapfn, oid), functools.partial(lv_tasks.mapfn_ref, oid)
+    ref = list(map(rfn, *iterables()))  # (a fn raising StopIteration ends builtin map's output there)
+    try:
+        got = list(ex.map(fn, *iterables(), **kw))
+    except BaseException as e:  # noqa
+        if op.get("stop_mod"):
+            # raising instead of ending silently is accepted for a function that raises StopIteration
+            return {"equal": True, "n": None, "raised": type(e).__name__, "got": None, "ref": None}
+        raise
     return {"equal": got == ref, "n": len(got), "got": got if got != ref else None, "ref": ref if got != ref else None}
 
 
@@ -662,11 +690,26 @@ def op_mk(op, oid, ctx):
         o.put(("x", 1))
         o.get()
     after = shm_list()
-    OBJ_NAMES[op["obj"]] = set(after or []) - set(before or [])
-    return {"before": before, "shm": after}
+    names = sem_names(o)
+    OBJ_NAMES[op["obj"]] = names if names else (set(after or []) - set(before or []))
+    return {"before": before, "shm": after, "names": sorted(OBJ_NAMES[op["obj"]])}
 
 
 OBJ_NAMES = {}
+
+
+def sem_names(o, depth=0):
+    """/dev/shm entries of the named semaphores an object owns (read from the object itself)."""
+    out = set()
+    sl = getattr(o, "_semlock", None)
+    if sl is not None and getattr(sl, "name", None):
+        out.add("sem." + sl.name.lstrip("/"))
+    if depth < 2:
+        for attr in ("_lock", "_cond", "_flag", "_sleeping_count", "_woken_count", "_wait_semaphore", "_rlock", "_wlock", "_sem"):
+            x = getattr(o, attr, None)
+            if x is not None:
+                out |= sem_names(x, depth + 1)
+    return out
 
 
 def op_drop(op, oid, ctx):
@@ -706,6 +749,7 @@ def op_use_obj(op, oid, ctx):
 def op_shmlist(op, oid, ctx):
     gc.collect()
     waited = 0
+    live = {k: sorted(v) for k, v in OBJ_NAMES.items() if k in OBJS}
     if op.get("expect_empty"):
         # multiprocessing keeps finished-but-unjoined Process objects (and what they reference, e.g. a
         # crashed worker's exit lock) in its module-level children set until the next start() or
@@ -719,7 +763,7 @@ def op_shmlist(op, oid, ctx):
             time.sleep(0.01)
             gc.collect()
             waited += 1
-    return {"shm": shm_list(), "settle_polls": waited}
+    return {"shm": shm_list(), "settle_polls": waited, "live_names": live}
 
 
 def op_canary(op, oid, ctx):
